@@ -346,7 +346,19 @@ def gateway_traffic(rng: Random, lines: list[tuple[str, str]], meta: dict[str, A
     for _ in range(rng.choice((1, 2, 4, 8))):
         gw = rng.choice(("18:006402", "18:006402", "18:013393", "30:258720"))
         idx = f"{rng.randrange(0, 12):02X}"
-        kind = rng.choice(("rq1F09", "rq1F09", "rq313F", "w313F", "w313F", "w2309", "w2349", "w2E04", "w1F41", "w000A"))
+        kind = rng.choice(("rq1F09", "rq1F09", "rq313F", "w313F", "w313F", "w2309", "w2349", "w2E04", "w1F41", "w000A", "dev10A0"))
+        if kind == "dev10A0":
+            # a hot-water sensor asks its controller for the DHW parameters (as real ones do) and is answered; later a
+            # gateway asks the same and gets a (newer) answer
+            sens = f"07:{rng.randrange(40000, 49999):06d}"
+            sp = f"{rng.randrange(3000, 8500):04X}"
+            seq = [f"RQ --- {sens} {ctl} --:------ 10A0 001 00", f"RP --- {ctl} {sens} --:------ 10A0 006 00{sp}0003E8", f"RQ --- {gw} {ctl} --:------ 10A0 001 00", f"RP --- {ctl} {gw} --:------ 10A0 006 00{sp}0001F4"]
+            at = rng.randrange(len(out) + 1)
+            dtm = out[at - 1][0] if at else (out[0][0] if out else "2024-03-01T12:00:00.000000")
+            for j, frame in enumerate(seq):
+                out.insert(at + j, (dtm, "045 " + frame))
+            n += 1
+            continue
         t313 = f"{rng.randrange(60):02X}{rng.randrange(60):02X}{rng.randrange(24):02X}{rng.randrange(1, 29):02X}{rng.randrange(1, 13):02X}07E8"
         temp = f"{rng.randrange(500, 3500):04X}"
         if kind == "rq1F09":
